@@ -19,7 +19,7 @@ RECS['ChildSaReq'].pyclass = 'ikesa.ChildSa'
 RECS['ChildSaReq'].namedtuple = True
 
 rec('AuthConfiguration', pyclass='configuration.AuthConfiguration', psk=Opt(Bytes), id=Rec('PayloadID'),
-    privkey=Opt(Obj('rsakey')), pubkey=Opt(Obj('rsakey')))
+    privkey=Opt(Obj('rsapriv')), pubkey=Opt(Obj('rsapub')))
 rec('IpsecConfiguration', pyclass='configuration.IpsecConfiguration', my_ts=TSr, index=Int, peer_ts=TSr, lifetime=Int,
     mode=Int, proposal=PROP)
 rec('IkeConfiguration', pyclass='configuration.IkeConfiguration', name=Str, my_addr=Rec('IPAddr'),
